@@ -25,6 +25,9 @@ type C20Params struct {
 	Rules     NetRules `json:"rules"`
 	Replay    int      `json:"replay"` // delayed duplicates of earlier datagrams re-delivered at the end
 	ForgeNext bool     `json:"forge_next"`
+	// LongEpoch: before the workload each side's record number is advanced past 2^16 in three
+	// steps of 30000 (as if that many records had been lost), one delivered record after each step
+	LongEpoch bool `json:"long_epoch,omitempty"`
 }
 
 func c20Counts(tier string) (int, int) {
@@ -39,7 +42,7 @@ func c20Gen(r *rand.Rand, tier string, idx int) any {
 	cfgs := []string{"13-aes128", "13-chacha", "13-aes256-cid"}
 	p := &C20Params{Cfg: cfgs[r.IntN(3)], UpdatesC: r.IntN(5), UpdatesS: r.IntN(5), Updaters: 1 + r.IntN(2), Request: r.IntN(3),
 		WritersC: 1 + r.IntN(3), WritersS: 1 + r.IntN(3), PerWriter: 1 + r.IntN(5), ParkPm: []int{0, 0, 200, 500}[r.IntN(4)],
-		Replay: []int{0, 0, 4, 12}[r.IntN(4)], ForgeNext: r.IntN(2) == 0}
+		Replay: []int{0, 0, 4, 12}[r.IntN(4)], ForgeNext: r.IntN(2) == 0, LongEpoch: r.IntN(3) == 0}
 	if r.IntN(3) != 0 {
 		p.Rules = NetRules{DropPm: 30 + r.IntN(250), DupPm: r.IntN(150), HoldPm: r.IntN(150), FaultsUntilNs: int64(time.Second) * int64(1+r.IntN(20)),
 			HoldMaxNs: int64(time.Millisecond) * int64(10+r.IntN(2500))}
@@ -74,6 +77,29 @@ func c20Run(rc *RunCtx, params any) {
 		return
 	}
 	s.Run(func() bool { return false }, 3*time.Second)
+	rdC, rdS := pair.StartReader("c"), pair.StartReader("s")
+	written := map[string][][]byte{}
+	if p.LongEpoch {
+		for step := 0; step < 3; step++ {
+			for _, ep := range []string{"c", "s"} {
+				dtls.VerifSkipLocalSeq(pair.ConnOf(ep), 30000)
+				pl := Payload(ep, 7, step, 24)
+				written[ep] = append(written[ep], pl)
+				if err := pair.WriteSync(ep, pl, 10*time.Second); err != nil {
+					rc.Violate("harness-write", "write after skipping record numbers: %v", err)
+
+					return
+				}
+			}
+			s.Run(func() bool { return len(rdS.Got) > step && len(rdC.Got) > step }, 5*time.Second)
+		}
+		if len(rdS.Got) != 3 || len(rdC.Got) != 3 {
+			rc.Violate("lost-after-gap", "after gaps of 30000 record numbers (indistinguishable from that many lost records) the server read %d of 3 and the client %d of 3 payloads on a loss-free link", len(rdS.Got), len(rdC.Got))
+
+			return
+		}
+		s.Probe("record-numbers-beyond-2^16")
+	}
 	t0 := s.Now()
 	rules := p.Rules
 	if rules.FaultsUntilNs > 0 {
@@ -86,7 +112,6 @@ func c20Run(rc *RunCtx, params any) {
 	n.Rules = rules
 	dataFrom := len(n.Emits)
 	s.Policy = SchedPolicy{ParkPermille: p.ParkPm, Active: p.ParkPm > 0}
-	rdC, rdS := pair.StartReader("c"), pair.StartReader("s")
 	type upd struct {
 		ep      string
 		done    bool
@@ -96,7 +121,6 @@ func c20Run(rc *RunCtx, params any) {
 	}
 	var upds []*upd
 	live := 0
-	written := map[string][][]byte{}
 	for _, side := range []struct {
 		ep      string
 		writers int
@@ -234,6 +258,10 @@ func c20Run(rc *RunCtx, params any) {
 	}
 	// decode everything emitted in the data phase
 	dec := map[string]*Decoder13{"c": NewDecoder13(suite, cw), "s": NewDecoder13(suite, sw)}
+	if p.LongEpoch {
+		// the decoder reconstructs truncated record numbers relative to the last one it saw
+		dec["c"].next[3], dec["s"].next[3] = 90003, 90003
+	}
 	cidToS, cidToC := len(cfg.S.CIDOf()), len(cfg.C.CIDOf())
 	type kuRec struct {
 		epoch uint16
